@@ -25,7 +25,14 @@ fn run_scenario(out: &mut Out, scn: &Value, tag: usize) {
     let cands = scn["cands"].as_array().unwrap();
     let tol_on = scn["tol"]["on"].as_bool().unwrap();
     let tol = if tol_on { Some(Distance::new(scn["tol"]["val"].as_f64().unwrap())) } else { None };
-    let unit = if tol_on || scn["tol"]["unit_given"].as_bool().unwrap_or(false) { Some(crate::search::dunit(scn["tol"]["unit"].as_str().unwrap())) } else { None };
+    // a tolerance in metres may be configured without naming its unit
+    let unit = if scn["tol"]["omit_unit"].as_bool().unwrap_or(false) {
+        None
+    } else if tol_on || scn["tol"]["unit_given"].as_bool().unwrap_or(false) {
+        Some(crate::search::dunit(scn["tol"]["unit"].as_str().unwrap()))
+    } else {
+        None
+    };
     let mut query = json!({"origin_x": deg(&scn["q"][0]), "origin_y": deg(&scn["q"][1]), "keep_me": {"a": [1, 2, 3]}, "name": "q"});
     let res: Result<i64, String>;
     if kind == "vertex" {
@@ -143,7 +150,8 @@ fn gen(r: &mut StdRng) -> Value {
     let tol_m: f64 = [30.0, 150.0, 400.0, 900.0, 5000.0][r.gen_range(0..5)];
     let val = match tol_unit { "meters" => tol_m, "feet" => (tol_m * 3.28).round(), "kilometers" => (tol_m / 1000.0).max(1.0).round(),
                                "miles" => (tol_m / 1609.0).max(1.0).round(), _ => (tol_m * 39.37).round() };
-    json!({"kind": kind, "cands": cands, "q": q, "tol": {"on": r.gen_bool(0.7), "val": val as i64, "unit": tol_unit},
+    let omit_unit = tol_unit == "meters" && r.gen_bool(0.5);
+    json!({"kind": kind, "cands": cands, "q": q, "tol": {"on": r.gen_bool(0.7), "val": val as i64, "unit": tol_unit, "omit_unit": omit_unit},
            "allowed_on": kind == "edge" && r.gen_bool(0.6), "allowed": (0..4).filter(|_| r.gen_bool(0.6)).collect::<Vec<i64>>(),
            "veh_on": kind == "edge" && r.gen_bool(0.6), "veh": veh})
 }
